@@ -1283,8 +1283,8 @@ fn c09(cx: &Ctx, o: &mut Outcome) {
                 continue;
             }
         };
-        if !(get.code >= 200 && get.code < 300) {
-            continue; // "for any path that GET serves"
+        if !(get.code >= 200 && get.code < 400) {
+            continue; // "for any path that GET serves" (a 304 to a conditional GET is serving it too)
         }
         o.evaluated = true;
         let target = &cx.reqs[i].target;
